@@ -10,15 +10,19 @@ CLAIM = ('Proved in Coq for the model, for every size limit, buffer capacity, ap
          'records (C08_partition_numbers, C08_partition_numbersdirect, C08_partition_timestamps - closed files + rCURRENT, '
          'nothing at all when nothing was written -, C08_partition_timestampsdirect); the executable oracle is proved to be that '
          "partition (C08_oracle_sound) and to accept the reader's view of the Timestamps directory (C08_oracle_timestamps). "
-         'START STATES (proved for Numbers and NumbersDirect): content found at start counts - two runs, the second with append: '
-         'its files are the greedy partition that starts with what the first run left in the current file, and each write '
-         'rotates iff what is counted, found content included, exceeds the limit (C08_append_partition_numbers, '
-         "C08_append_rotates_iff_numbers: a trigger before the run's first write does nothing, the file is opened lazily); any "
-         'number of runs, each with its own limit, capacity and append flag (C08_runs_partition_numbers, '
-         'C08_runs_partition_numbersdirect). For custom time-stamp formats, append under the time-stamp namings, CRLF and '
-         'AgeOrSize the same statement is decided by the correspondence check (model = implementation on every explored history) '
-         "plus the verified oracle applied to the implementation's files: partial there. ")
-THEOREMS = ["C08_rotates_iff_exceeds", "C08_partition_numbers", "C08_partition_numbersdirect", "C08_rotates_iff_numbersdirect", "C08_partition_timestampsdirect", "C08_rotates_iff_timestampsdirect", "C08_oracle_sound", "C08_partition_timestamps", "C08_rotates_iff_timestamps", "C08_oracle_timestamps", "C08_append_partition_numbers", "C08_append_rotates_iff_numbers", "C08_runs_partition_numbers", "C08_runs_partition_numbersdirect"]
+         'START STATES (proved for all four namings; first Numbers and NumbersDirect): content found at start counts - two runs, '
+         'the second with append: its files are the greedy partition that starts with what the first run left in the current '
+         'file, and each write rotates iff what is counted, found content included, exceeds the limit '
+         "(C08_append_partition_numbers, C08_append_rotates_iff_numbers: a trigger before the run's first write does nothing, "
+         'the file is opened lazily); any number of runs, each with its own limit, capacity and append flag '
+         '(C08_runs_partition_numbers, C08_runs_partition_numbersdirect). The same start-state theorems hold for '
+         'TimestampsDirect and Timestamps naming (C08_append_partition_timestamps[direct], '
+         'C08_append_rotates_iff_timestamps[direct], C08_runs_partition_timestamps[direct], '
+         'C08_runs_rotates_iff_timestamps[direct]: with append the newest file / rCURRENT is continued under its old name and '
+         "its bytes count from the run's first write on). For custom time-stamp formats, CRLF and AgeOrSize the same statement "
+         'is decided by the correspondence check (model = implementation on every explored history) plus the verified oracle '
+         "applied to the implementation's files: partial there. ")
+THEOREMS = ["C08_rotates_iff_exceeds", "C08_partition_numbers", "C08_partition_numbersdirect", "C08_rotates_iff_numbersdirect", "C08_partition_timestampsdirect", "C08_rotates_iff_timestampsdirect", "C08_oracle_sound", "C08_partition_timestamps", "C08_rotates_iff_timestamps", "C08_oracle_timestamps", "C08_append_partition_numbers", "C08_append_rotates_iff_numbers", "C08_runs_partition_numbers", "C08_runs_partition_numbersdirect", "C08_append_partition_timestampsdirect", "C08_append_rotates_iff_timestampsdirect", "C08_runs_partition_timestampsdirect", "C08_runs_rotates_iff_timestampsdirect", "C08_append_partition_timestamps", "C08_append_rotates_iff_timestamps", "C08_runs_partition_timestamps", "C08_runs_rotates_iff_timestamps"]
 TRUSTED = ["modelled, not verified: std BufWriter/File semantics, rename/open/truncate of the OS (Fs/Fs.v)"]
 ASSUMPTIONS = ["no I/O faults, no kill, no external modification of the directory during the run (those are C19, C11, C18)",
                "the correspondence explores a finite sample; the theorems cover all inputs of the model"]
